@@ -34,8 +34,14 @@ _HEX = re.compile(r"^[0-9a-fA-F]*$")
 def _rule_version(p):
     if p == "":
         return REJECT
+    pre = re.fullmatch(r"([0-9]+(?:\.[0-9]+)*)[-.]?(?:a|b|rc|alpha|beta|dev)(?:[-.]?[0-9]+)?", p)
+    if pre is not None:
+        # a pre-release of X sorts before X and after every release below X (PEP 440 and semver agree)
+        tup = parse_version(pre.group(1))
+        tup = tup + (0,) * (3 - len(tup))
+        return ACCEPT if tup > (1, 4, 0) else REJECT
     if re.fullmatch(r"[0-9]+(\.[0-9]+)*", p) is None:
-        return UNSPEC  # pre-release tags, 'latest', blanks, Unicode digits: the statement is silent
+        return UNSPEC  # 'latest', blanks, Unicode digits, build suffixes: the statement is silent
     tup = parse_version(p)
     tup = tup + (0,) * (3 - len(tup))
     return ACCEPT if tup >= (1, 4, 0) else REJECT
